@@ -96,6 +96,23 @@ Theorem C18_dollar_optional : forall cfg parse_float regex_ok ffun afun regex_ma
 Proof. exact dollar_optional. Qed.
 Print Assumptions C18_dollar_optional.
 
+(* the same when FILTERS follow the first step (NoDollarFilt.v): `a[?(@.b)].c` returns what `$.a[?(@.b)].c` returns *)
+From JP Require Import FiltChain FiltChainAddr NoDollarFilt.
+Theorem C18_dollar_optional_before_filters : forall cfg parse_float regex_ok ffun afun regex_match,
+  (forall f v w, small v -> ffun f v = Some w -> small w) ->
+  (forall f l w, Forall small l -> afun f l = Some w -> small w) ->
+  forall s l doc st, step_ok s = true -> forallb fstep_ok l = true -> forallb (fstep_okp parse_float regex_ok) l = true -> small doc -> ok st ->
+  exists t1 t0,
+    parse_with cfg parse_float regex_ok jsonpath_grammar (fchain_path (FS (RPlain s) :: l)) = ParseOk t1 /\
+    parse_with cfg parse_float regex_ok jsonpath_grammar (fchain_path0 s l) = ParseOk t0 /\
+    match fst (eval_run ffun afun regex_match t1 doc st) with
+    | OOk rs => fst (eval_run ffun afun regex_match t0 doc st) = OOk rs
+    | OErr _ => exists e, fst (eval_run ffun afun regex_match t0 doc st) = OErr e
+    | OPanic _ => False
+    end.
+Proof. exact dollar_optional_filt. Qed.
+Print Assumptions C18_dollar_optional_before_filters.
+
 Example C18_dollar_example :
   chain_path0 (SDot [97]) [RPlain (SWild false); RRec (SIdx [48])] = [97; 91; 42; 93; 46; 46; 91; 48; 93] /\
   chain_path (RPlain (SDot [97]) :: [RPlain (SWild false); RRec (SIdx [48])]) = [36; 46; 97; 91; 42; 93; 46; 46; 91; 48; 93].
